@@ -41,6 +41,10 @@ def query_script(kind, path, queries, analyze=True):
         elif q[0] == "cond":
             fn = "mo_getcircuitproperties" if kind == "fem" else po + "_getconductorproperties"
             L.append('out("%s", %s("%s"))' % (tag, fn, q[1]))
+        elif q[0] == "condc":
+            # complex circuit properties of a time-harmonic magnetics solution: re/im of current, voltage, flux linkage
+            L.append('c_i, c_v, c_f = mo_getcircuitproperties("%s")' % q[1])
+            L.append('out("%s", re(c_i), im(c_i), re(c_v), im(c_v), re(c_f), im(c_f))' % tag)
         elif q[0] == "line":
             L.append("%s_clearcontour()" % po)
             for (x, y) in q[1]:
